@@ -2,6 +2,7 @@ import LassoProofs.Lemmas.SerDoc
 import LassoProofs.C15
 import LassoModel.Extracted
 import LassoProofs.Lemmas.Config
+import LassoProofs.Lemmas.DeserInterp
 /-
   C14 — serialisation round-trips and yields a working interner.
 
@@ -143,6 +144,29 @@ theorem deserialisers_follow_model :
       [.readMap, .presizeExact, .presizeExact, .arenaUnlimited, .loopBegin, .counterMax, .store, .expectStored,
        .mapInsert, .stringsInsert, .loopEnd, .finalCheck, .reject] := by
   decide
+
+/-- Stronger than comparing sequences: the regenerated effect sequences are given a semantics
+(`LassoModel/DeserInterp.lean`: every effect acts on the registers of one loop iteration - the arena, the vector,
+the table, the result of the last check) and *running* them is proved to be the model's loops, for every
+document and every starting state: `Rodeo` / `RodeoReader` (store, expect, hash, probe, reject a repeat, key check
+on the position, reject, push, insert without growth because both containers were pre-sized exactly),
+`RodeoResolver` (store, expect, push; before the loop the check of the last position), `ThreadedRodeo` (running
+maximum of the keys, store, expect, the two inserts; after the loop the final validation).  A check that is not
+followed by its rejection, a push before the check, a missing `expect`, a table that may grow - each changes what
+the sequence computes, and this theorem no longer holds. -/
+theorem deserialisers_run_the_source (env : Env) (N : Nat) :
+    (∀ doc idx t ss a, interpListLoop env N Extracted.deRodeoEffects doc idx t ss a = deListLoop env N doc idx t ss a) ∧
+    (∀ doc idx t ss a, interpListLoop env N Extracted.deReaderEffects doc idx t ss a = deListLoop env N doc idx t ss a) ∧
+    (∀ doc ss a, interpResolverLoop Extracted.deResolverEffects doc ss a = deResolverLoop doc ss a) ∧
+    (∀ n, resolverPrecheck N Extracted.deResolverEffects n = some (decide (n ≠ 0 ∧ (keyOfIndex N (n - 1)).isNone))) ∧
+    (∀ doc t, interpThreadedLoop Extracted.deThreadedEffects doc t = deThreadedLoop doc t) ∧
+    threadedPostcheck Extracted.deThreadedEffects = true :=
+  ⟨fun doc idx t ss a => interp_deRodeo_is_model env N doc idx t ss a,
+   fun doc idx t ss a => interp_deReader_is_model env N doc idx t ss a (by decide),
+   fun doc ss a => interp_deResolver_is_model doc ss a,
+   fun n => deResolver_precheck N n,
+   fun doc t => interp_deThreaded_is_model doc t,
+   deThreaded_postcheck⟩
 
 /-- The code this file's theorems are about is the same under every feature configuration: the regenerated
 census of conditional compilation contains import blocks, whole serde impls, optional-dependency impls and
